@@ -63,9 +63,12 @@ func fail(sig, format string, a ...interface{}) core.Result {
 
 type ex struct {
 	log *har.Logger
+	// what each entry held at the moment it was logged (deep copies): the log as a whole is checked
+	// against it later, after further entries have been logged (export, logmany)
+	want map[string]*entryWant
 }
 
-func (P) NewExec() core.Exec { return &ex{log: har.NewLogger()} }
+func (P) NewExec() core.Exec { return &ex{log: har.NewLogger(), want: map[string]*entryWant{}} }
 func (e *ex) Close()         {}
 
 // ---- independent readings used by the oracle ----
@@ -346,6 +349,8 @@ func (e *ex) Do(op string) core.Result {
 		return e.export()
 	case "jsonstr":
 		return jsonstr(t)
+	case "logmany":
+		return e.logmany(t)
 	}
 	return core.Result{Impl: "bad-op"}
 }
@@ -396,6 +401,7 @@ func (e *ex) hreq(t []string) core.Result {
 		return r
 	}
 	r := en.Request
+	e.remember(ctx.ID(), en)
 	pd := "none"
 	if r.PostData != nil {
 		pd = fmt.Sprintf("pd %s %s %s", core.HexS(r.PostData.MimeType), ParamsTok(r.PostData.Params), core.HexS(r.PostData.Text))
@@ -525,6 +531,7 @@ func (e *ex) hres(t []string) core.Result {
 		return r
 	}
 	r := en.Response
+	e.remember(ctx.ID(), en)
 	c := r.Content
 	impl := fmt.Sprintf("ok %d %s %d %s %s %d %s %s", r.Status, core.HexS(r.HTTPVersion), r.BodySize, hdrTok(r.Headers),
 		core.HexS(r.RedirectURL), c.Size, core.HexS(c.MimeType), core.Hex(c.Text))
@@ -735,6 +742,9 @@ func (e *ex) export() core.Result {
 	}
 	orig := e.log.Export().Log.Entries
 	core.Count("export")
+	if d := e.changedSinceLogged(); d != "" {
+		return core.Result{SkipModel: true, Impl: "export-differs", Fail: d, Sig: "c16:entry-changed-after-logging"}
+	}
 	if len(back.Log.Entries) != len(orig) {
 		return core.Result{SkipModel: true, Impl: "export-differs", Fail: fmt.Sprintf("%d entries exported, %d parsed back", len(orig), len(back.Log.Entries)), Sig: "c16:export-roundtrip"}
 	}
